@@ -38,11 +38,12 @@ C_PROGS = {
     'raise': [('pause',), ('raise', 'RuntimeError')],
     'g_aw': [('disp', '{cb}', 'G', 'await')],
     'g_ff': [('disp', '{cb}', 'G', 'ff'), ('pause',)],
+    'ga_aw': [('disp', 'A', 'G', 'await')],  # (only generated when the child lives on B) the child's handler crosses back to the root's bus and waits there
     'pause_pause': [('pause',), ('pause',)],
 }
 QUICK_P1 = ['pause', 'ff_pause', 'aw', 'aw_pause', 'late', 'pause_aw', 'aw_then_ff']
 QUICK_P2 = [None, 'pause', 'aw', 'pause_raise', 'pause_raise_tmo']
-QUICK_C1 = ['ret', 'pause', 'g_aw', 'g_ff', 'raise']
+QUICK_C1 = ['ret', 'pause', 'g_aw', 'g_ff', 'raise', 'ga_aw']
 QUICK_C2 = [None, 'pause']
 
 
@@ -95,6 +96,8 @@ def scenarios(grammar, *, timeouts=(None,), allow_raise=True, allow_tmo_await=Tr
                 continue
             if not deep and c2 is not None and c1 in ('g_ff',):
                 continue
+            if cb == 'A' and 'ga_aw' in (c1, c2):
+                continue  # identical to g_aw there
             if deep and tp is not None and c2 == 'ret' and c1 == 'ret':
                 continue
             hs = [dict(bus='A', pat='P', name='h1', prog=_subst(P_PROGS[p1], cb))]
@@ -105,6 +108,8 @@ def scenarios(grammar, *, timeouts=(None,), allow_raise=True, allow_tmo_await=Tr
                 if c2:
                     hs.append(dict(bus=cb, pat='C', name='hc2', prog=_subst(C_PROGS[c2], cb)))
                 hs.append(dict(bus=cb, pat='G', name='hg', prog=[('pause',)]))
+                if 'ga_aw' in (c1, c2):
+                    hs.append(dict(bus='A', pat='G', name='hgA', prog=[('pause',)]))
             if fwd:
                 # B also handles what is forwarded to it (distinct handler names: the recorder keys on them)
                 hs.append(dict(bus='B', pat='P', name='fpB', prog=[('pause',)]))
@@ -112,14 +117,18 @@ def scenarios(grammar, *, timeouts=(None,), allow_raise=True, allow_tmo_await=Tr
                     hs.append(dict(bus='B', pat='C', name='fcB', prog=[('ret', 7)]))
                     hs.append(dict(bus='B', pat='G', name='fgB', prog=[('ret', 8)]))
             names = ['A', 'B'] if has_b else ['A']
+            lazy_b = has_b and cb == 'B' and not fwd and child and c1 in ('g_aw', 'ga_aw')
             for b in names:
                 # the unrelated later event: its handler on A itself dispatches and awaits a child (an in-handler await AFTER whatever happened to P)
-                hs.append(dict(bus=b, pat='X', name='hx' + b, prog=[('disp', 'A', 'Q', 'await'), ('ret', 0)] if b == 'A' else [('ret', 0)]))
+                # (where B is started lazily, B's own later event X2 is dispatched from here instead of from ordinary code)
+                hs.append(dict(bus=b, pat='X', name='hx' + b, prog=([('disp', 'B', 'X2', 'ff')] if lazy_b else []) + [('disp', 'A', 'Q', 'await'), ('ret', 0)] if b == 'A' else [('ret', 0)]))
             hs.append(dict(bus='A', pat='Q', name='hq', prog=[('ret', 9)]))
             if fwd:
                 hs.append(dict(bus='B', pat='Q', name='fqB', prog=[('ret', 9)]))
             popt = {} if tp is None else {'timeout': None if tp == 'none' else tp}
-            main = [('disp', 'A', 'P', 'late' if main_mode == 'await_root' else 'ff', popt), ('disp', 'A', 'X', 'ff')] + ([('disp', 'B', 'X2', 'ff')] if has_b else [])
+            # bus B is normally started by ordinary code (X2); where the child's handler dispatches a grandchild and waits for it (lazy_b), B's very
+            # first dispatch is the one made inside the root's handler instead (its run-loop task is then created lazily in that handler's context)
+            main = [('disp', 'A', 'P', 'late' if main_mode == 'await_root' else 'ff', popt), ('disp', 'A', 'X', 'ff')] + ([('disp', 'B', 'X2', 'ff')] if has_b and not lazy_b else [])
             actors = []
             if main_mode == 'await_root':
                 # ordinary code awaits the root; an unrelated actor whose wait the explorer may never complete ("without further stimulus")
